@@ -1179,3 +1179,265 @@ def c05_tree_search(meta, seed, budget):
                 n += 1
             if n >= budget:
                 return
+
+
+# ---------------------------------------------------------------------------
+# C03: fault injection on a fake procfs
+# ---------------------------------------------------------------------------
+
+C03_PID = 4900
+C03_METHODS = ["name", "exe", "cmdline", "environ", "terminal", "io_counters", "cpu_times", "cpu_num", "create_time",
+               "memory_info", "memory_full_info", "memory_maps", "cwd", "num_ctx_switches", "num_threads", "threads",
+               "status", "open_files", "net_connections", "num_fds", "ppid", "uids", "gids", "as_dict", "is_running",
+               "children", "parent", "memory_percent", "username", "oneshot_seq", "process_iter_attrs"]
+
+SMAPS = (b"55d0c0a00000-55d0c0a21000 r--p 00000000 fd:01 123 /usr/bin/cat\nSize: 132 kB\nRss: 100 kB\nPss: 50 kB\n"
+         b"Shared_Clean: 10 kB\nShared_Dirty: 0 kB\nPrivate_Clean: 20 kB\nPrivate_Dirty: 4 kB\nReferenced: 100 kB\n"
+         b"Anonymous: 4 kB\nSwap: 0 kB\nVmFlags: rd mr mw me\n"
+         b"7ffc00000000-7ffc00021000 rw-p 00000000 00:00 0 \nSize: 132 kB\nRss: 8 kB\nPss: 8 kB\nShared_Clean: 0 kB\n"
+         b"Shared_Dirty: 0 kB\nPrivate_Clean: 0 kB\nPrivate_Dirty: 8 kB\nReferenced: 8 kB\nAnonymous: 8 kB\nSwap: 0 kB\n")
+ROLLUP = b"00400000-7ffc00021000 ---p 00000000 00:00 0 [rollup]\nRss: 108 kB\nPss: 58 kB\nPrivate_Clean: 20 kB\nPrivate_Dirty: 12 kB\nSwap: 0 kB\n"
+
+
+def c03_tree(d, state=b"S"):
+    import random
+    pid = C03_PID
+    base = os.path.join(d, str(pid))
+    os.makedirs(os.path.join(base, "fd"), exist_ok=True)
+    os.makedirs(os.path.join(base, "fdinfo"), exist_ok=True)
+    os.makedirs(os.path.join(base, "task", str(pid)), exist_ok=True)
+    os.makedirs(os.path.join(base, "task", str(pid + 1)), exist_ok=True)
+    os.makedirs(os.path.join(d, "net"), exist_ok=True)
+    os.makedirs(os.path.join(d, "files"), exist_ok=True)
+    F = stat_fields(random.Random(5))
+    F[0] = state
+    F[1] = b"1"
+    F[4] = b"0"
+    w = lambda rel, data: open(os.path.join(base, rel), "wb").write(data)  # noqa: E731
+    w("stat", build_stat(pid, b"victim", F))
+    txt, _ = build_status({})
+    w("status", txt)
+    w("statm", b"1000 200 50 10 0 300 0\n")
+    w("cmdline", b"" if state == b"Z" else b"/usr/bin/victim\x00-x\x00")
+    w("environ", b"" if state == b"Z" else b"A=1\x00B=2\x00")
+    w("io", b"rchar: 1\nwchar: 2\nsyscr: 3\nsyscw: 4\nread_bytes: 5\nwrite_bytes: 6\ncancelled_write_bytes: 0\n")
+    w("smaps", b"" if state == b"Z" else SMAPS)
+    w("smaps_rollup", b"" if state == b"Z" else ROLLUP)
+    w("task/%d/stat" % pid, build_stat(pid, b"victim", F))
+    w("task/%d/stat" % (pid + 1), build_stat(pid + 1, b"worker)", F))
+    tgt = os.path.join(d, "files", "data.txt")
+    open(tgt, "w").close()
+    for fd, t in ((0, "/dev/null"), (3, tgt), (4, "socket:[7777]")):
+        os.symlink(t, os.path.join(base, "fd", str(fd)))
+        w("fdinfo/%d" % fd, b"pos:\t0\nflags:\t0100002\nmnt_id:\t1\n")
+    if state != b"Z":
+        os.symlink("/usr/bin/cat", os.path.join(base, "exe"))
+    os.symlink("/tmp", os.path.join(base, "cwd"))
+    for proto in ("tcp", "tcp6", "udp", "udp6"):
+        open(os.path.join(d, "net", proto), "w").write("  sl  local_address rem_address   st ...\n")
+    open(os.path.join(d, "net", "unix"), "w").write("Num RefCount Protocol Flags Type St Inode Path\n")
+    one = os.path.join(d, "1")
+    os.makedirs(one, exist_ok=True)
+    open(os.path.join(one, "cmdline"), "wb").write(b"/sbin/init\x00")
+    open(os.path.join(one, "statm"), "wb").write(b"10 2 1 1 0 3 0\n")
+    open(os.path.join(one, "stat"), "wb").write(_stat_with_start(1, 1, comm=b"init"))
+    open(os.path.join(one, "status"), "wb").write(b"Name:\tinit\nTgid:\t1\nUid:\t0\t0\t0\t0\nGid:\t0\t0\t0\t0\nThreads:\t1\n")
+    open(os.path.join(d, "stat"), "wb").write(b"cpu  1 2 3 4 5 6 7 8 9 10\ncpu0 1 2 3 4 5 6 7 8 9 10\nbtime 1700000000\n")
+    open(os.path.join(d, "meminfo"), "wb").write(b"MemTotal: 1000000 kB\nMemFree: 500000 kB\nMemAvailable: 600000 kB\nBuffers: 1 kB\nCached: 1 kB\nShmem: 1 kB\nActive: 1 kB\nInactive: 1 kB\nSlab: 1 kB\n")
+
+
+class FaultInjector:
+    """counts OS accesses below <root>/<pid>; applies the scheduled faults"""
+
+    def __init__(self, root, plan):
+        self.root, self.plan = root, dict(plan)      # {k: 'vanish' | 'deny' | 'zombie'}
+        self.k = 0
+        self.prefix = os.path.join(root, str(C03_PID))
+        self.gone = False
+
+    def hit(self, path):
+        try:
+            p = os.fsdecode(path)
+        except Exception:
+            return None
+        if not (p == self.prefix or p.startswith(self.prefix + "/")):
+            return None
+        k = self.k
+        self.k += 1
+        f = self.plan.get(k)
+        if f == "vanish" and not self.gone:
+            shutil.rmtree(self.prefix, ignore_errors=True)
+            self.gone = True
+        elif f == "zombie" and not self.gone:
+            shutil.rmtree(self.prefix, ignore_errors=True)
+            c03_tree(self.root, state=b"Z")
+        elif f == "deny":
+            raise PermissionError(13, "Permission denied", p)
+        return None
+
+    def patches(self):
+        import builtins
+        real_open, real_readlink, real_listdir, real_stat = builtins.open, os.readlink, os.listdir, os.stat
+        real_exists, real_lexists = os.path.exists, os.path.lexists
+        inj = self
+
+        def f_open(file, *a, **k):
+            if isinstance(file, (str, bytes)):
+                inj.hit(file)
+            return real_open(file, *a, **k)
+
+        def f_readlink(path, *a, **k):
+            inj.hit(path)
+            return real_readlink(path, *a, **k)
+
+        def f_listdir(path=".", *a):
+            inj.hit(path)
+            return real_listdir(path, *a)
+
+        def f_stat(path, *a, **k):
+            if isinstance(path, (str, bytes)):
+                inj.hit(path)
+            return real_stat(path, *a, **k)
+
+        def f_exists(path):
+            try:
+                f_stat(path)
+            except (OSError, ValueError):
+                return False
+            return True
+
+        from psutil import _pslinux
+
+        def native(value):
+            # native syscalls cannot see the fake process: answer from the fake table instead
+            def f(pid, *a):
+                if not real_exists(inj.prefix):
+                    raise ProcessLookupError(3, "No such process")
+                return value
+            return f
+
+        self.native = [mock.patch.object(_pslinux.cext_posix, "getpriority", native(0)),
+                       mock.patch.object(_pslinux.cext, "proc_cpu_affinity_get", native([0, 1])),
+                       mock.patch.object(_pslinux.cext, "proc_ioprio_get", native((2, 4))),
+                       mock.patch.object(_pslinux.resource, "prlimit", native((1024, 4096)))]
+        return self.native + [
+                mock.patch.object(builtins, "open", f_open), mock.patch.object(os, "readlink", f_readlink),
+                mock.patch.object(os, "listdir", f_listdir), mock.patch.object(os, "stat", f_stat),
+                mock.patch.object(os.path, "exists", f_exists), mock.patch.object(os.path, "lexists", f_exists)]
+
+
+def c03_call(p, method):
+    import psutil
+    if method == "oneshot_seq":
+        with p.oneshot():
+            a = p.name()
+            b = p.uids()
+            c = p.cmdline()
+            d = p.memory_info()
+        return (a, b, c, d)
+    if method == "process_iter_attrs":
+        psutil._pmap.clear()
+        return [x.info for x in psutil.process_iter(["name", "uids", "cmdline", "memory_info"])]
+    if method == "children":
+        return p.children(recursive=True)
+    return getattr(p, method)()
+
+
+@runner("c03:faults")
+def c03_faults(model, meta):
+    import psutil
+    from psutil import _pslinux
+    method = model.get("method", "name")
+    plan = {int(k): v for k, v in model.get("plan", {}).items()}
+    problems = []
+    known = []
+    d = tempfile.mkdtemp(prefix="vfproc_")
+    old = psutil.PROCFS_PATH
+    ok_exc = (psutil.NoSuchProcess, psutil.ZombieProcess, psutil.AccessDenied)
+    try:
+        c03_tree(d, state=model.get("state", "S").encode())
+        psutil.PROCFS_PATH = d
+        _pslinux.BOOT_TIME = None
+        psutil._pmap.clear()
+        psutil._pids_reused.clear()
+        psutil._LOWEST_PID = None
+        p = psutil.Process(C03_PID)
+        inj = FaultInjector(d, plan)
+        pts = inj.patches()
+        for pt in pts:
+            pt.start()
+        try:
+            try:
+                res, exc = c03_call(p, method), None
+            except ok_exc as e:
+                res, exc = None, e
+                if method != "process_iter_attrs" and e.pid != C03_PID:
+                    problems.append(f"{method}: {type(e).__name__} carries pid {e.pid!r}")
+                if type(e) is psutil.NoSuchProcess and not inj.gone and os.path.exists(inj.prefix + "/stat"):
+                    if "deny" in plan.values() and getattr(p, "_pid_reused", False):
+                        # recorded finding C03-denied-identity-check: see KNOWN_FINDINGS.txt
+                        known.append(f"{method}: a denied identity re-check is read as PID reuse -> NoSuchProcess")
+                    else:
+                        problems.append(f"{method}: NoSuchProcess although the process is still listed")
+            except BaseException as e:  # noqa: BLE001
+                res, exc = None, e
+                problems.append(f"{method}: leaked {type(e).__name__}: {e}")
+            n_accesses = inj.k
+            # once the process is gone every later query raises NoSuchProcess
+            if inj.gone and method not in ("is_running", "process_iter_attrs"):
+                inj.plan = {}
+                for m2 in (method, "name", "status", "ppid", "uids"):
+                    if m2 in ("oneshot_seq",):
+                        m2 = "name"
+                    try:
+                        r2 = c03_call(p, m2)
+                        problems.append(f"after the process vanished {m2}() returned {r2!r} instead of raising NoSuchProcess")
+                    except psutil.NoSuchProcess as e:
+                        if type(e) is not psutil.NoSuchProcess:
+                            problems.append(f"after the process vanished {m2}() raised {type(e).__name__}")
+                    except BaseException as e:  # noqa: BLE001
+                        problems.append(f"after the process vanished {m2}() raised {type(e).__name__}: {e}")
+            if inj.gone and method == "is_running" and res is True:
+                pass
+        finally:
+            for pt in pts:
+                pt.stop()
+    finally:
+        psutil.PROCFS_PATH = old
+        psutil._pmap.clear()
+        psutil._pids_reused.clear()
+        psutil._LOWEST_PID = None
+        _pslinux.BOOT_TIME = None
+        shutil.rmtree(d, ignore_errors=True)
+    tag = None
+    if not problems and known:
+        problems, tag = known, "denied-identity-check-reads-as-reuse"
+    return {"env": {}, "result": problems[:3], "exc": None, "verdict": bool(problems), "method": method, "plan": plan,
+            "tag": tag}
+
+
+@search("c03:faults")
+def c03_faults_search(meta, seed, budget):
+    import random
+    rng = random.Random(seed)
+    cases = []
+    for m in C03_METHODS:
+        for k in range(0, 14):
+            for f in ("vanish", "deny", "zombie"):
+                cases.append({"method": m, "plan": {str(k): f}})
+        for st in ("Z",):
+            cases.append({"method": m, "plan": {}, "state": st})
+        cases.append({"method": m, "plan": {}})
+    two = []
+    for m in C03_METHODS:
+        for i in range(0, 6):
+            for j in range(i + 1, 8):
+                two.append({"method": m, "plan": {str(i): "deny", str(j): "vanish"}})
+    rng.shuffle(cases)
+    rng.shuffle(two)
+    n = 0
+    for c in cases + two:
+        yield c
+        n += 1
+        if n >= budget:
+            return
